@@ -275,7 +275,7 @@ def regen(cfg_from, cfg_to):
             return shim.symbolic_mode() if symbolic else ctx
         with mode():
             calc.Lij(*w, large_om2=1e8)
-        ok_struct, shapes_ok = True, False
+        ok_struct, shapes_ok, tags_ok = True, False, False
         try:
             # regeneration takes no continuous input: plain numpy (as in the constructor)
             calc.generate(nth)
@@ -287,12 +287,15 @@ def regen(cfg_from, cfg_to):
             shapes_ok = (st(calc) == st(fresh) and calc.thermo.Nstars == fresh.thermo.Nstars and len(calc.om1_jn) == len(fresh.om1_jn) and
                          len(calc.om2_jn) == len(fresh.om2_jn))
             ok_struct = shapes_ok and calc.vkinetic.Nvstars == fresh.vkinetic.Nvstars
+            # the tag interface describes the regenerated range too (tags2preene sizes its arrays from the tags)
+            tags_ok = calc.tags == fresh.tags and calc.tagdict == fresh.tagdict and calc.tagdicttype == fresh.tagdicttype
         except Exception:
             if os.environ.get('VERIF_DEBUG'):
                 import traceback
                 traceback.print_exc()
             ok_struct = False
         obs.append(('%s:regenerated-structure-equals-fresh' % name, bool(ok_struct), dict(info, sig='regen:structure', witnessed=True)))
+        obs.append(('%s:regenerated-tags-equal-fresh' % name, bool(ok_struct and tags_ok), dict(info, sig='regen:tags', witnessed=True)))
         got = None
         if shapes_ok:
             with mode():
